@@ -656,6 +656,16 @@ def run(ctx):
             forced = '31031=%d.%d.%d' % bits
         cases.append({'ids': ids, 'version': 33, 'edition': 4, 'nsub': rng.choice([1, 2]), 'compressed': False, 'forced': forced,
                       'seed': rng.randrange(1, 2 ** 32), 'maxrep': 3, 'features': {'nested-204-then-outer': 1}, 'shared': False})
+    # 204YYY still in force while the quality values after 222000 are coded: each 033007 carries its own associated field
+    for k in range(ctx.n(9, 120)):
+        el = lambda: rng.choice(pl.numeric + pl.codeflag)
+        a = rng.choice([1, 2, 4, 8])
+        bits = rng.choice([(0, 0, 1), (0, 1, 0), (1, 0, 0), (0, 0, 0)])
+        ids = [204000 + a, 31021, el(), el(), el(), 222000, 236000, 101003, 31031] + [33007] * bits.count(0) + [204000]
+        cases.append({'ids': ids, 'version': 33, 'edition': 4, 'nsub': rng.choice([1, 2]), 'compressed': rng.random() < 0.3,
+                      'forced': '31031=%d.%d.%d' % bits, 'seed': rng.randrange(1, 2 ** 32), 'maxrep': 3,
+                      'features': {'quality-values-under-204': 1}, 'shared': False})
+        cases[-1]['shared'] = cases[-1]['compressed']
     # a delayed replication FACTOR that owns an attribute (a bitmap whose zero bit selects the 031001/031002): its
     # attribute lines are the dotted ones of the nested text
     for k in range(ctx.n(12, 150)):
